@@ -139,6 +139,8 @@ def case_unique(ctx, p):
     # --- output_stl False ------------------------------------------------------------------------------------------------------------
     name = "history:output_stl=False gives the same rows without column 4"
     try:
+        if p["s"] % 4 == 0:
+            ctx.probe_alias(mod.genhkl_unique, c["held"], c["smin"], c["smax"], output_stl=True, **kw)
         U3 = np.asarray(mod.genhkl_unique(c["held"], c["smin"], c["smax"], **kw), float)
         c05.cell_untouched(ctx, c, "%s.genhkl_unique / genhkl_all" % m)
         ok = U3.shape == (len(U), 3) and bool(np.array_equal(U3, U[:, :3]))
